@@ -154,8 +154,28 @@ def install(reg: Registry):
     graph_arrays = tuple('f_' + f for f in GRAPH_CONT + ('model', 'lang_graph', 'next_node_id', 'next_attacker_id'))
     all_arrays = tuple(sorted(set(LIST_ARRAYS + DICT_ARRAYS + ('cls', 'own_obj', 'own_fld') + graph_arrays
                                   + tuple('f_' + f for f in reg.schema.classes[NODE]) + tuple('f_' + f for f in reg.schema.classes[ATT]))))
-    reg.add(Contract(MG + ':AttackGraph._generate_graph', {'self': Obj(GRAPH)}, ensures=lambda c: [], modifies=all_arrays, allocates=True, trusted=True,
-                     note='ABSTRACT-GEN: generation is not under contract (bounded floor only); callers under contract learn nothing from it'))
+    def empty_state(h, G):
+        """the five containers of G are empty, pairwise distinct, owned by G, and both counters are 0 (no freshness claim)"""
+        out = []
+        for f in ('nodes', 'attackers'):
+            L = h.f(f, G)
+            out.append(z3.And(h.cls(L) == CLS_LIST, h.len(L) == 0, h.bagof(L) == EMPTY_BAG, h.own_obj(L) == G, h.own_fld(L) == field_id(f)))
+        k = z3.Const('k!es', Val)
+        for f in ('_id_to_node', '_full_name_to_node', '_id_to_attacker'):
+            D = h.f(f, G)
+            out.append(z3.And(h.cls(D) == CLS_DICT, h.size(D) == 0, FA([k], z3.Not(h.has(D, k)), [h.has(D, k)]),
+                              h.own_obj(D) == G, h.own_fld(D) == field_id(f)))
+        out.append(z3.Distinct(*[h.f(f, G) for f in GRAPH_CONT]))
+        out.append(z3.And(h.f('next_node_id', G) == 0, h.f('next_attacker_id', G) == 0))
+        return z3.And(*out)
+
+    reg.add(Contract(MG + ':AttackGraph._generate_graph', {'self': Obj(GRAPH)},
+                     requires=lambda c: [('starts-from-the-empty-graph', empty_state(c.old, c.self))],
+                     ensures=lambda c: [], modifies=all_arrays, allocates=True, trusted=True,
+                     note='ABSTRACT-GEN: generation is not under contract (bounded floor only); callers under contract learn nothing from it. '
+                          'Its precondition (taken from its two call sites) is the state a fresh AttackGraph is in: empty node / attacker lists, '
+                          'empty indexes, both counters 0 - so __init__ and regenerate_graph must each establish it, which is the deductive part of '
+                          '"a regenerated graph is indistinguishable from a freshly generated one" (C09)'))
 
     # ---- AttackGraph.__init__
     def empty_graph(o, h, G):
@@ -196,6 +216,12 @@ def install(reg: Registry):
     reg.add(Contract(MG + ':AttackGraph.__init__', {'self': Obj(GRAPH), 'lang_graph': Obj('LanguageGraph', opt=True), 'model': Obj('Model', opt=True)},
                      ensures=init_ensures, modifies=all_arrays, allocates=True, props=('C14', 'C09'),
                      note='without a model or without a language: an empty well-formed graph with fresh containers; otherwise generation (ABSTRACT-GEN)'))
+
+    # ---- AttackGraph.regenerate_graph: resets to the empty graph, then generation (ABSTRACT-GEN); the obligation is the callee's precondition
+    reg.add(Contract(MG + ':AttackGraph.regenerate_graph', {'self': Obj(GRAPH)},
+                     ensures=lambda c: [], modifies=all_arrays, allocates=True, props=('C09', 'C16'),
+                     note='every container and counter is reset before generation starts (precondition of ABSTRACT-GEN): a stale index, list or '
+                          'counter fails call.pre.starts-from-the-empty-graph'))
 
     # ---- assumed contract KEEP-ALIVE: the library's bookkeeping after x.__deepcopy__(memo) returned
     def ka_ensures(c):
